@@ -99,6 +99,10 @@ type Task struct {
 	// reports can say which call a task is stuck in.
 	Where string
 	timer bool
+	// Free marks an environment task (canceller, timer, network event): switching
+	// to it is not counted as a preemption, and it does not become the task whose
+	// continuation is the default.
+	Free bool
 }
 
 // Stamp returns a copy of the task's current stamp.
@@ -146,13 +150,18 @@ type BlockedInfo struct {
 	Op    string
 	Where string
 	timer bool
+	// Free marks an environment task (canceller, timer, network event): switching
+	// to it is not counted as a preemption, and it does not become the task whose
+	// continuation is the default.
+	Free bool
 }
 
 // Sched is the scheduler of one execution.
 type Sched struct {
 	tasks    []*Task
 	sorted   []*Task
-	running  *Task
+	running  *Task // the task holding the baton
+	main     *Task // the last non-free task that ran: its continuation is the default, leaving it is a preemption
 	ctl      chan struct{}
 	aborting bool
 	wg       sync.WaitGroup
@@ -352,11 +361,11 @@ func Yield(label string) {
 func (s *Sched) enabledAlts(buf []Alt) []Alt {
 	buf = buf[:0]
 	// running task first
-	if r := s.running; r != nil && !r.finished && r.pend != nil {
+	if r := s.main; r != nil && !r.finished && r.pend != nil {
 		buf = r.pend.enabled(s, r, buf)
 	}
 	for _, t := range s.sorted {
-		if t == s.running || t.finished || t.pend == nil {
+		if t == s.main || t.finished || t.pend == nil {
 			continue
 		}
 		buf = t.pend.enabled(s, t, buf)
@@ -447,7 +456,7 @@ func (s *Sched) loop(maxSteps int) (complete bool) {
 		}
 		a := buf[c]
 		// preemption accounting: switching away from a still-enabled running task
-		if !forced && s.running != nil && a.T != s.running && len(buf) > 0 && buf[0].T == s.running {
+		if !forced && s.main != nil && a.T != s.main && !a.T.Free && len(buf) > 0 && buf[0].T == s.main {
 			s.preempts++
 		}
 		if len(buf) > 255 {
@@ -462,6 +471,9 @@ func (s *Sched) loop(maxSteps int) (complete bool) {
 		}
 		s.steps++
 		s.running = a.T
+		if !a.T.Free {
+			s.main = a.T
+		}
 		a.T.wake <- a
 	}
 }
